@@ -85,10 +85,13 @@ pub fn e1_spec(id: &str, tier: &str) -> Option<Spec> {
         "C03" => Some(Spec {
             id: "C03",
             programs: if quick {
-                progs::quick_p3()
+                let mut v = progs::quick_p3();
+                v.extend(progs::durq_set());
+                v
             } else {
                 let mut v = progs::all_p3();
                 v.extend(progs::p4_set());
+                v.extend(progs::durq_set());
                 v
             },
             depth: if quick { 4 } else { 5 },
@@ -119,7 +122,7 @@ pub fn e1_spec(id: &str, tier: &str) -> Option<Spec> {
             programs: progs::lru_set(),
             depth: if quick { 5 } else { 6 },
             alphabet: Box::new(progs::lru_alphabet),
-            flags: Flags { values: true, lru: true, justify: true, fresh_end: true, ..Flags::default() },
+            flags: Flags { values: true, lru: true, lru_twin: true, justify: true, fresh_end: true, ..Flags::default() },
             rule: RULE_E1,
             cap_s: cap,
             config: "seq",
@@ -175,6 +178,58 @@ pub fn e1_spec(id: &str, tier: &str) -> Option<Spec> {
             assumptions: {
                 let mut a = base_assumptions();
                 a.push("interning functions are uniformly LOW or uniformly HIGH (the statement's 'functions whose inputs all had LOW durability' and the code's 'stamp durability at interning time' coincide there)".into());
+                a
+            },
+        }),
+        "C08" => Some(Spec {
+            id: "C08",
+            programs: vec![progs::intern_canon_prog(1), progs::intern_canon_prog(3), progs::intern_canon_prog(0)],
+            depth: if quick { 6 } else { 7 },
+            alphabet: Box::new(progs::intern_canon_alphabet),
+            flags: Flags { values: true, intern: true, ..Flags::default() },
+            rule: RULE_E1,
+            cap_s: cap,
+            config: "seq",
+            assumptions: base_assumptions(),
+        }),
+        "C10" => Some(Spec {
+            id: "C10",
+            programs: progs::specify_set(),
+            depth: if quick { 5 } else { 7 },
+            alphabet: Box::new(progs::specify_alphabet),
+            flags: Flags { values: true, specify: true, fresh_end: true, ..Flags::default() },
+            rule: RULE_E1,
+            cap_s: cap,
+            config: "seq",
+            assumptions: base_assumptions(),
+        }),
+        "C11" => Some(Spec {
+            id: "C11",
+            programs: progs::acc_set(),
+            depth: if quick { 5 } else { 6 },
+            alphabet: Box::new(progs::acc_alphabet),
+            flags: Flags { values: true, acc: true, ..Flags::default() },
+            rule: RULE_E1,
+            cap_s: cap,
+            config: "seq",
+            assumptions: {
+                let mut a = base_assumptions();
+                a.push("reference order: pre-order over the calls of a from-scratch evaluation, first visit only, a function's own values before its callees' (the order accumulated_by documents); for the program that pushes after calls only the multiset is compared".into());
+                a
+            },
+        }),
+        "C14" => Some(Spec {
+            id: "C14",
+            programs: progs::plain_cycle_set(),
+            depth: if quick { 5 } else { 6 },
+            alphabet: Box::new(progs::plain_cycle_alphabet),
+            flags: Flags { values: true, cycle_panic: true, ..Flags::default() },
+            rule: RULE_E1,
+            cap_s: cap,
+            config: "seq",
+            assumptions: {
+                let mut a = base_assumptions();
+                a.push("operational oracle: a call to a function without cycle handling made while that function is live on the caller's stack must end the request in a cycle panic; a returned value must equal the least fixpoint of all equations; a cycle panic without an observed re-entry (e.g. during validation) is accepted".into());
                 a
             },
         }),
